@@ -205,6 +205,8 @@ class Sim(object):
         self.tape = []
         self.now = 0.0
         self.epoch = epoch
+        self.wall_offset = 0.0
+        self.clock_steps = 0
         self.steps = 0
         self.line_steps = 0
         self.sync_steps = 0
@@ -337,7 +339,18 @@ class Sim(object):
                     self.in_event = False
 
     def time(self):
-        return self.epoch + self.now
+        # wall clock: may be stepped (forwards or backwards) by a clock fault; monotonic() never is
+        return self.epoch + self.now + self.wall_offset
+
+    def wall_clock(self):
+        return self.epoch + self.now + self.wall_offset
+
+    def step_wall_clock(self, delta):
+        """Clock fault: the wall clock jumps by delta seconds (NTP step, VM resume).  Safe in
+        event context."""
+        self.wall_offset += delta
+        self.clock_steps += 1
+        self.log("clock.step", "%.3f" % delta)
 
     def monotonic(self):
         return self.now
